@@ -1,7 +1,7 @@
 (* C16 — property theorems only.  "ref" = an object together with the data word of the interface value that
    holds it (what eq compares); consistent2 a b = "same Go type and same data word only for the same object". *)
 From Coq Require Import ZArith NArith List Bool Permutation.
-From C16 Require Import Model Spec Rounding Proofs Proofs2 Proofs3 Proofs4 Proofs5.
+From C16 Require Import Model Spec Rounding Proofs Proofs2 Proofs3 Proofs4 Proofs5 Proofs6.
 Import ListNotations.
 
 (* (1) eq implies eql implies equal implies equalp: every pair of references, no guard. *)
@@ -96,6 +96,23 @@ Theorem C16_table_refines_map : forall pool tst ops,
   Forall2 obs_equiv (t_run pool [] ops) (s_run pool tst [] ops).
 Proof. exact table_refines_map. Qed.
 Print Assumptions C16_table_refines_map.
+
+(* the guard of (7) is met by every pool of keys of the simple kinds (nil, t, fixnums, characters, strings,
+   symbols, vectors) whose references are consistent: there the table (whose reported test is always eql) is
+   a finite map under slip's eql, for every history. *)
+Theorem C16_simple_pool_ok : forall pool,
+  simple_pool pool = true ->
+  (forall a b, In a pool -> In b pool -> consistent2 a b /\ const_words a b) ->
+  pool_ok pool (pool_test 1 pool) = true.
+Proof. exact simple_pool_ok. Qed.
+Print Assumptions C16_simple_pool_ok.
+Theorem C16_table_is_map_on_simple_keys : forall pool ops,
+  simple_pool pool = true ->
+  (forall a b, In a pool -> In b pool -> consistent2 a b /\ const_words a b) ->
+  forallb (op_in_range (List.length pool)) ops = true ->
+  Forall2 obs_equiv (t_run pool [] ops) (s_run pool (pool_test 1 pool) [] ops).
+Proof. intros pool ops S C R. apply table_refines_map; auto. apply simple_pool_ok; auto. Qed.
+Print Assumptions C16_table_is_map_on_simple_keys.
 
 (* (8) refutations outside the guards: the known findings *)
 Theorem C16_transitivity_with_floats_refuted :
